@@ -271,7 +271,9 @@ func c18Live(p Params) func() {
 		cs, _, _ := world.Connect(cli, srv, nil)
 		type ev struct {
 			tick, admitted, lim, other bool
+			cap                        int // total capacity in effect after the event (a lowered capacity takes effect at the next refill tick)
 		}
+		curCap, effCap := totalCap, totalCap
 		half := false
 		hist := ""
 		// upper bounds on the tokens that can be available (sequential history: exact refill, no slack):
@@ -279,7 +281,7 @@ func c18Live(p Params) func() {
 		tUB, hUB := totalCap, handlerCap
 		admit := func(what string, lim bool) {
 			if tUB == 0 {
-				vsched.Failf("%s admitted although the bucket must be empty (capacity %d, every refill tick accounted for) | %s", what, totalCap, hist)
+				vsched.Failf("%s admitted although the bucket must be empty (capacity %d, every refill tick accounted for) | %s", what, effCap, hist)
 			}
 			tUB--
 			if lim {
@@ -291,7 +293,7 @@ func c18Live(p Params) func() {
 		}
 		var evs []ev
 		for i := 0; i < depth; i++ {
-			switch k := vsched.Choose(5, "op"); k {
+			switch k := vsched.Choose(6, "op"); k {
 			case 0, 1:
 				name, method, key := "call_free", hFree, "free"
 				if k == 1 {
@@ -320,7 +322,7 @@ func c18Live(p Params) func() {
 				if st.OK() {
 					admit(name, k == 1)
 				}
-				evs = append(evs, ev{admitted: st.OK(), lim: k == 1})
+				evs = append(evs, ev{admitted: st.OK(), lim: k == 1, cap: effCap})
 			case 2:
 				hist += "push "
 				before := ran["push"]
@@ -339,7 +341,7 @@ func c18Live(p Params) func() {
 				if did == 1 {
 					admit("push", false)
 				}
-				evs = append(evs, ev{admitted: did == 1})
+				evs = append(evs, ev{admitted: did == 1, cap: effCap})
 			case 4:
 				// the refill interval is changed (same capacities, still one token per tick): the limiters restart
 				// their tickers, and from now on one tick still means one refill
@@ -349,29 +351,54 @@ func c18Live(p Params) func() {
 				if half {
 					iv = time.Second / (2 * totalCap)
 				}
-				ol.Update(overloader.LimitConfig{MaxTotalQPS: totalCap, QPSInterval: iv,
+				ol.Update(overloader.LimitConfig{MaxTotalQPS: int32(curCap), QPSInterval: iv,
 					MaxHandlerQPS: []overloader.HandlerLimit{{ServiceMethod: hLim, MaxQPS: handlerCap}}})
 				vsched.Quiesce()
-				evs = append(evs, ev{other: true})
+				evs = append(evs, ev{other: true, cap: effCap})
+			case 5:
+				// the total limit is lowered to 1 / raised back to 2 (still one token per tick). A raised capacity
+				// fills up tick by tick; tokens above a lowered capacity are gone at the latest after the next tick.
+				hist += "relimit "
+				if curCap == totalCap {
+					curCap = 1
+				} else {
+					curCap = totalCap
+				}
+				iv := time.Second / totalCap
+				if half {
+					iv = time.Second / (2 * totalCap)
+				}
+				ol.Update(overloader.LimitConfig{MaxTotalQPS: int32(curCap), QPSInterval: iv,
+					MaxHandlerQPS: []overloader.HandlerLimit{{ServiceMethod: hLim, MaxQPS: handlerCap}}})
+				vsched.Quiesce()
+				evs = append(evs, ev{other: true, cap: effCap})
 			case 3:
 				hist += "tick "
 				for _, t := range vtime.Tickers() {
 					t.Fire()
 				}
 				vsched.Quiesce()
-				if tUB < totalCap {
-					tUB++
+				effCap = curCap
+				if tUB++; tUB > effCap {
+					tUB = effCap
 				}
 				if hUB < handlerCap {
 					hUB++
 				}
-				evs = append(evs, ev{tick: true})
+				evs = append(evs, ev{tick: true, cap: effCap})
 			}
 		}
 		// every window of the history
 		for a := 0; a < len(evs); a++ {
 			ticks, tot, lim := 0, 0, 0
+			maxCap := totalCap
+			if a > 0 {
+				maxCap = evs[a-1].cap
+			}
 			for b := a; b < len(evs); b++ {
+				if evs[b].cap > maxCap {
+					maxCap = evs[b].cap
+				}
 				switch e := evs[b]; {
 				case e.tick:
 					ticks++
@@ -382,8 +409,8 @@ func c18Live(p Params) func() {
 					}
 				}
 				// the history is sequential (every operation runs to quiescence), so no slack for a take racing a refill
-				if tot > totalCap+ticks {
-					vsched.Failf("%d calls/pushes admitted in a window with %d refill ticks; capacity %d + 1 per tick | window %d..%d of %s", tot, ticks, totalCap, a, b, hist)
+				if tot > maxCap+ticks {
+					vsched.Failf("%d calls/pushes admitted in a window with %d refill ticks; capacity %d + 1 per tick | window %d..%d of %s", tot, ticks, maxCap, a, b, hist)
 				}
 				if lim > handlerCap+ticks {
 					vsched.Failf("%d calls admitted to the limited route in a window with %d refill ticks; handler capacity %d | window %d..%d of %s", lim, ticks, handlerCap, a, b, hist)
